@@ -87,7 +87,7 @@ namespace raptor
         }
         else
         {
-            first_local_col = 0;
+            first_local_col = global_num_cols;
             local_num_cols = 0;
         }
 
@@ -164,6 +164,7 @@ namespace raptor
         }
         else
         {
+            first_local_col = global_num_cols;
             local_num_cols = 0;
         }
 
